@@ -357,6 +357,7 @@ def run(report, p):
                 r8.check(False, f, c, f"`{norm(c)[:70]}` combines {'the routed history with an unrouted path' if recv_routed else 'an unrouted history with the routed path'}: the path is not relative to the history that is asked", construct=f"lookup {c.func.attr} mixes routed and unrouted history / path")
 
     # ---- rules shared with other properties (same mechanism, same rule, reported under every property it can break)
+    include_rules(report, p, 'c10', ['R10.8'], 'the <references> section is the last of a manifest: a reader that leaves its event loop early loses the links to the nested histories')
     include_rules(report, p, 'c05', ['R5.7'], 'every nested ascmhl folder must be discovered as a child history')
     include_rules(report, p, 'c03', ['R3.10'], 'the commit loop and the loader test hash lists for presence')
     include_rules(report, p, 'c02', ['R2.3'], 'records are keyed by the routed history-relative path')
